@@ -464,7 +464,7 @@ def check_dwann(case):
 
 
 SUBS = [
-    Sub("shells", shells_case(), check_shells, quick=40, thorough=2400, budget_quick=45, budget_thorough=500),
+    Sub("shells", shells_case(), check_shells, quick=40, thorough=2000, budget_quick=45, budget_thorough=500),
     Sub("hybrids", hybrids_case(), check_hybrids, quick=56, thorough=3200, budget_quick=30, budget_thorough=300),
-    Sub("dwann", dwann_case(), check_dwann, quick=32, thorough=1600, budget_quick=45, budget_thorough=500),
+    Sub("dwann", dwann_case(), check_dwann, quick=32, thorough=1400, budget_quick=45, budget_thorough=500),
 ]
